@@ -208,15 +208,22 @@ pub fn k_c19_batch_malformed_b() {
     vreach!("C19.malformed_b.reach");
 }
 
-//# harness: fn=BatchMerkleProof::into_openings, get_root, verify_batch (two indexes); label=bounded(depth 2; shapes (nodes [1], 1 index, 1 leaf) with into_openings, (nodes [1, 1], 2 indexes, 2 leaves), (nodes [0, 2], 2 indexes, 1 leaf)); tier=thorough; uses=malformed_batch,nodes_of,digests,indexes_of; timeout=3000
+//# harness: fn=BatchMerkleProof::into_openings, get_root, verify_batch (one index, with expansion into openings); label=bounded(depth 2; shape (nodes [1], 1 index, 1 leaf) with into_openings; index value and digests symbolic); tier=thorough; uses=malformed_batch,nodes_of,digests,indexes_of; timeout=1800
 #[cfg_attr(kani, kani::proof)]
 #[cfg_attr(kani, kani::unwind(12))]
 #[cfg_attr(kani, kani::stub(alloc::fmt::format, vs::fake_format))]
-pub fn k_c19_batch_malformed_c() {
+pub fn k_c19_batch_malformed_c1() {
     malformed_batch(&[1], 1, 1, 2, true);
+    vreach!("C19.malformed_c1.reach");
+}
+
+//# harness: fn=BatchMerkleProof::get_root, verify_batch (two indexes, two leaves); label=bounded(depth 2; shape (nodes [1, 1], 2 indexes, 2 leaves); index values and digests symbolic); tier=thorough; uses=malformed_batch,nodes_of,digests,indexes_of; timeout=1800
+#[cfg_attr(kani, kani::proof)]
+#[cfg_attr(kani, kani::unwind(12))]
+#[cfg_attr(kani, kani::stub(alloc::fmt::format, vs::fake_format))]
+pub fn k_c19_batch_malformed_c2() {
     malformed_batch(&[1, 1], 2, 2, 2, false);
-    malformed_batch(&[0, 2], 2, 1, 2, false);
-    vreach!("C19.malformed_c.reach");
+    vreach!("C19.malformed_c2.reach");
 }
 
 // ------------------------------------------------------------------------------------------------
@@ -261,9 +268,23 @@ fn batch_verifies(idx: &[usize]) {
     vcheck!("C18.batch.reconstructs_root", bp.get_root(idx, &bl) == Ok(*t.root()));
 }
 
-/// batch proof assembled from single openings equals the direct one and expands back into them
-fn batch_matches_singles(idx: &[usize]) {
-    let (_l, t) = tree_of(4);
+//# harness: fn=MerkleTree::prove_batch, verify_batch, BatchMerkleProof::get_root; label=bounded(4 leaves; index sequences [1], [2,3], [3,0]; digests symbolic); tier=quick; props=C18; uses=batch_verifies,tree_of,digests; timeout=900
+#[cfg_attr(kani, kani::proof)]
+#[cfg_attr(kani, kani::unwind(12))]
+#[cfg_attr(kani, kani::stub(alloc::fmt::format, vs::fake_format))]
+pub fn k_c18_batch_openings_verify() {
+    batch_verifies(&[1]);
+    batch_verifies(&[2, 3]);
+    batch_verifies(&[3, 0]);
+    vreach!("C18.batch_verify.reach");
+}
+
+// from_single_proofs / into_openings against the single openings on a 4-leaf tree: even the one-index instance
+// does not finish in 55 minutes (maps whose values hold cloned proof vectors) - not claimed. The 2-leaf tree
+// instances below are the thorough tier's stand-in, each shape its own harness.
+
+fn batch_matches_singles2(idx: &[usize]) {
+    let (_l, t) = tree_of(2);
     let (bl, bp) = t.prove_batch(idx).unwrap();
     let mut singles = Vec::new();
     let mut k = 0;
@@ -281,29 +302,38 @@ fn batch_matches_singles(idx: &[usize]) {
     }
 }
 
-//# harness: fn=MerkleTree::prove_batch, verify_batch, BatchMerkleProof::get_root; label=bounded(4 leaves; index sequences [1], [2,3], [3,0]; digests symbolic); tier=quick; props=C18; uses=batch_verifies,tree_of,digests; timeout=900
+//# harness: fn=BatchMerkleProof::from_single_proofs, into_openings (2 leaves, index [1]); label=bounded(2 leaves; index sequence [1]; digests symbolic); tier=thorough; props=C18; uses=batch_matches_singles2,tree_of,digests; timeout=1800
 #[cfg_attr(kani, kani::proof)]
 #[cfg_attr(kani, kani::unwind(12))]
 #[cfg_attr(kani, kani::stub(alloc::fmt::format, vs::fake_format))]
-pub fn k_c18_batch_openings_verify() {
-    batch_verifies(&[1]);
-    batch_verifies(&[2, 3]);
-    batch_verifies(&[3, 0]);
-    vreach!("C18.batch_verify.reach");
+pub fn k_c18_batch_singles_2leaves_1() {
+    batch_matches_singles2(&[1]);
+    vreach!("C18.batch_singles.1.reach");
 }
 
-// from_single_proofs / into_openings against the single openings: even the one-index instance does
-// not finish in 25 minutes (maps whose values hold cloned proof vectors); kept in the thorough tier
-// only, and reported there as undecided when it times out - never counted as discharged.
-
-//# harness: fn=MerkleTree::prove_batch, verify_batch, get_root, from_single_proofs, into_openings; label=bounded(4 leaves; index sequences [0,1,2,3], [2,0,1], [2,3]; digests symbolic); tier=thorough; props=C18; uses=batch_verifies,batch_matches_singles,tree_of,digests; timeout=3000
+//# harness: fn=BatchMerkleProof::from_single_proofs, into_openings (2 leaves, indexes [0, 1]); label=bounded(2 leaves; index sequence [0, 1]; digests symbolic); tier=thorough; props=C18; uses=batch_matches_singles2,tree_of,digests; timeout=1800
 #[cfg_attr(kani, kani::proof)]
 #[cfg_attr(kani, kani::unwind(12))]
 #[cfg_attr(kani, kani::stub(alloc::fmt::format, vs::fake_format))]
-pub fn k_c18_batch_openings_more() {
+pub fn k_c18_batch_singles_2leaves_01() {
+    batch_matches_singles2(&[0, 1]);
+    vreach!("C18.batch_singles.01.reach");
+}
+
+//# harness: fn=MerkleTree::prove_batch, verify_batch, get_root (4 leaves, all indexes); label=bounded(4 leaves; index sequence [0,1,2,3]; digests symbolic); tier=thorough; props=C18; uses=batch_verifies,tree_of,digests; timeout=1800
+#[cfg_attr(kani, kani::proof)]
+#[cfg_attr(kani, kani::unwind(12))]
+#[cfg_attr(kani, kani::stub(alloc::fmt::format, vs::fake_format))]
+pub fn k_c18_batch_openings_all4() {
     batch_verifies(&[0, 1, 2, 3]);
+    vreach!("C18.batch_all4.reach");
+}
+
+//# harness: fn=MerkleTree::prove_batch, verify_batch, get_root (4 leaves, indexes [2, 0, 1]); label=bounded(4 leaves; index sequence [2,0,1]; digests symbolic); tier=thorough; props=C18; uses=batch_verifies,tree_of,digests; timeout=1800
+#[cfg_attr(kani, kani::proof)]
+#[cfg_attr(kani, kani::unwind(12))]
+#[cfg_attr(kani, kani::stub(alloc::fmt::format, vs::fake_format))]
+pub fn k_c18_batch_openings_201() {
     batch_verifies(&[2, 0, 1]);
-    batch_matches_singles(&[3, 0]);
-    batch_matches_singles(&[2, 3]);
-    vreach!("C18.batch_more.reach");
+    vreach!("C18.batch_201.reach");
 }
